@@ -202,6 +202,16 @@ func c10Eval(c *ctx, cs c10Case) {
 		}
 		want := ref.Expand(cs.Tpl, cs.Counts)
 		c.Class("one-step")
+		// the same expansion asked again gives the same answer (nothing may depend on map iteration order)
+		if rng.HashStr(key)%4 == 0 {
+			for rep := 0; rep < 2; rep++ {
+				var again ast.ItemNode
+				if o := real.Try(func() { again = tpl.FillVariables(countsRaw(cs.Counts)) }); o.Panicked || real.SnapItem(again).Diff(real.SnapItem(got)) != "" {
+					c.Violation("C10/expansion-not-deterministic", fmt.Sprintf("template %s counts %v: repeated expansion differs (%s)", clipS(ref.Print(cs.Tpl)), cs.Counts, o), cs)
+					return
+				}
+			}
+		}
 		if !filledAny {
 			c.Class("nothing-to-expand")
 		}
